@@ -162,6 +162,8 @@ def run_case(res, case, sigs, attempt=0):
     import pynetdicom2
     import pydicom
     from pydicom import uid
+    import time
+    t0 = time.monotonic()
     i, seed = case['index'], case['seed']
     r = rng(seed, 'c15', i)
     mode = MODES[i % len(MODES)]
@@ -292,7 +294,7 @@ def run_case(res, case, sigs, attempt=0):
                 else:
                     server = Server('STORESCP', 0, max_pdu_length=server_max)
                 server.net = net
-                server.timeout = 5
+                server.timeout = 5 if not attempt else 30        # (re-runs are patient)
                 if mode == 'memory':
                     server.add_scp(memory_scp([svc.CT, svc.MR]))
                 else:
@@ -317,7 +319,7 @@ def run_case(res, case, sigs, attempt=0):
                         u = uid.UID(ts_of[ks[0]])
                         client = applicationentity.ClientAE('STORESCU', supported_ts=[ts_of[ks[0]]],
                                                             max_pdu_length=client_max)
-                        client.timeout = 5
+                        client.timeout = 5 if not attempt else 30
                         client.add_scu(sopclass.storage_scu, [svc.CT, svc.MR])
                         with client.request_association(remote) as assoc:
                             service = assoc.get_scu(sop_class)
@@ -377,7 +379,10 @@ def run_case(res, case, sigs, attempt=0):
                 error = exc
         tcpnet.wait_quiet(0, 3.0)
         sigs.add(net.signature())
-        if tcpnet.is_timeout(error) and attempt < 2:
+        if error is not None and not isinstance(error, AssertionError) and attempt < 2 and (
+                tcpnet.is_timeout(error) or time.monotonic() - t0 >= 4.0):
+            # (one side's 5 s time-out reaches the other as an abort: a failure that took that long is re-run
+            # alone, without injected delays and with patient time-outs, before it counts)
             res.count('flaky-timeouts')
             return run_case(res, case, sigs, attempt + 1)
         if concurrent:
